@@ -120,12 +120,17 @@ class Callout:
         currentSize = 4 + self.locationCodeSize
         while self.size > currentSize:
             type = get_value(stream.data, stream.index, 2)
+            # Account for each substructure, so that the loop ends with the
+            # callout and never looks at the bytes that follow it.
             if type == 0x4944:
                 self.fruIdentity = FRUIdentity(stream)
+                currentSize += self.fruIdentity.flattenedSize
             elif type == 0x5045:
                 self.pceIdentity = PCEIdentity(stream)
+                currentSize += self.pceIdentity.flattenedSize
             elif type == 0x4D52:
                 self.mru = MRU(stream)
+                currentSize += self.mru.flattenedSize
             else:
                 break
 
